@@ -19,7 +19,7 @@ func init() {
 			"RESEND the client's resend loop runs i from 0 while i <= latest - offset and i/8 < 504; for a clear bit it loads slot offset+i from its history, skips it iff the load failed or the value is below 2, and otherwise sends (offset+i, uint64(int32(value))) through the one sender function; " +
 			"so what is re-sent is a function of the server's bitfield and the local history only, independent of which datagrams or earlier syncs were lost; CHAIN the original path stores uint32(E) and sends E, the resend path sends uint64(int32(stored)): composed, this is the identity for every E that is the sign extension of a 32-bit value " +
 			"(evaluated on the boundary cells of that domain), so a retransmission is byte-identical to the original (same sender, same signing bytes; deterministic signing is trusted); WRITE-ONCE the history the retransmission is read from never changes a stored reading (the rule of C09, re-run); IDEMPOTENT the server ignores an identical replay (C02's ABSORB rule, re-checked). " +
-			"every edge that leaves the resend loop is one of its two range conditions failing (no cap, break or return inside it); the reply layout rule of C10 (offset and bitfield read where and how the server writes them) is re-run. NOT decided: the fault-sequence quantifier itself (which datagrams are lost, which sync attempts fail), timing and 'eventually'; readings outside the signed 32-bit range (outside the property's stated domain).",
+			"every edge that leaves the resend loop is one of its two range conditions failing (no cap, break or return inside it); the reply layout rule of C10 (offset and bitfield read where and how the server writes them) is re-run. Premises re-run: the reply's window offset and bitfield are read in one critical section (C10), the acceptance window is exactly +-432 (C01), every client lock is released on every path (C11). NOT decided: the fault-sequence quantifier itself (which datagrams are lost, which sync attempts fail), timing and 'eventually'; readings outside the signed 32-bit range (outside the property's stated domain).",
 		Assumptions: append([]string{"glow.Sign is deterministic (RFC 6979, trusted)", "UDP delivers a datagram unchanged or not at all"}, baseAssumptions...),
 		Run:         runC08,
 	})
@@ -276,6 +276,15 @@ func runC08(c *an.Ctx) {
 	// the history a retransmission is read from is write-once (rule owned by C09, re-run here:
 	// otherwise the re-sent value can differ from the one originally sent)
 	writeOnce(c, saver, loader)
+	// the bitfield tells the client which slots of the window that starts at the replied offset are missing: both are
+	// read in one critical section on the server (rule owned by C10; otherwise a rotation between the two reads pairs the
+	// new window start with the old window's bitfield and a lost slot is never asked for again)
+	replyOneState(c)
+	// a retransmitted reading is still acceptable when it arrives: the server accepts exactly +-432 slots (rule owned by C01)
+	acceptanceWindow(c)
+	// "whichever sync attempts fail": a failed round leaves the client able to run the next one (every client lock is
+	// released on every path; rule owned by C11)
+	lockBalance(c, p.FuncsIn("client"), nil, "C08")
 }
 
 // bigExpr evaluates "2^a-2^b", "2^a-k", "2^a", "k".
